@@ -14,5 +14,7 @@ OUT="$WORK/kani_$H.log"
 CARGO_NET_OFFLINE=true timeout "$TO" cargo kani --harness "$H" > "$OUT" 2>&1
 RC=$?
 if grep -q "VERIFICATION:- SUCCESSFUL" "$OUT"; then echo "RESULT $H SUCCESSFUL $(grep -o 'Verification Time: [0-9.]*s' "$OUT" | tail -1)"; exit 0; fi
-if grep -q "VERIFICATION:- FAILED" "$OUT"; then echo "RESULT $H FAILED $(grep -A2 'Failed Checks' "$OUT" | tr '\n' ' ' | head -c 300)"; exit 1; fi
+# a verdict needs a named failed check; "CBMC failed" / out of memory / solver crash is not one
+# (an unwinding assertion is a statement about the harness bound, not about the code: undecided)
+if grep -q "VERIFICATION:- FAILED" "$OUT" && grep "^Failed Checks:" "$OUT" | grep -qv "unwinding assertion" && ! grep -qi "out of memory\|CBMC failed" "$OUT"; then echo "RESULT $H FAILED $(grep -A2 'Failed Checks' "$OUT" | tr '\n' ' ' | head -c 300)"; exit 1; fi
 echo "RESULT $H UNDECIDED rc=$RC $(tail -3 "$OUT" | tr '\n' ' ' | head -c 300)"; exit 2
